@@ -153,6 +153,21 @@ def add_scenarios(rng, h):
     extra += "class NpDerived : %sVBase {\n__published:\n  NpDerived();\n  int vread();\n  void vrewind() override;\n  bool vend() const;\n  int own() const;\n  int plain();\n};\n" % acc
     acc2 = rng.choice(["public ", "protected ", "private "])
     extra += "class NpDeep : %sNpDerived {\n__published:\n  NpDeep();\n  int vread();\n  int own() const;\n  bool vend();\n};\n" % acc2
+    # every comparison / assignment operator with its true return type; scoped enums in every spelling
+    extra += ("class Version {\n__published:\n  Version();\n  bool operator <= (const Version &o) const;\n  bool operator >= (const Version &o) const;\n"
+              "  bool operator < (const Version &o) const;\n  bool operator > (const Version &o) const;\n  bool operator == (const Version &o) const;\n"
+              "  bool operator != (const Version &o) const;\n  Version &operator = (const Version &o);\n  Version &operator += (int k);\n  Version &operator <<= (int k);\n"
+              "  Version &operator >>= (int k);\n  Version operator + (const Version &o) const;\n  int operator - (const Version &o) const;\n  bool operator ! () const;\n};\n")
+    for op, ret in [("<=", "bool"), (">=", "bool"), ("<", "bool"), (">", "bool"), ("==", "bool"), ("!=", "bool"), ("=", "Version *"), ("+=", "Version *"), ("<<=", "Version *"),
+                    (">>=", "Version *"), ("+", "Version *"), ("-", "int"), ("!", "bool")]:
+        truth.append(("return", "Version::operator " + op, ret, None))
+    truth.append(("proto", "Version::operator =", "Version &Version::operator =(Version const &o)", None))
+    truth.append(("proto", "Version::operator <=", "bool Version::operator <=(Version const &o) const", None))
+    truth.append(("proto", "Version::operator +", "Version Version::operator +(Version const &o) const", None))
+    extra += ("__begin_publish\nenum struct Blend { B_a, B_b };\nenum class Mix { M_a };\nenum Plain { P_a };\n__end_publish\n"
+              "class Pen {\n__published:\n  enum struct Cap { butt, round };\n  enum class Join { miter };\n  enum Old { o0 };\n  Cap get_cap() const;\n};\n")
+    for tname, scoped in [("Blend", True), ("Mix", True), ("Plain", False), ("Pen::Cap", True), ("Pen::Join", True), ("Pen::Old", False)]:
+        truth.append(("scoped-enum", tname, scoped, None))
     for name, virt in [("NpDerived::vread", True), ("NpDerived::vrewind", True), ("NpDerived::vend", True), ("NpDerived::own", False), ("NpDerived::plain", False),
                        ("NpDeep::vread", True), ("NpDeep::own", False), ("NpDeep::vend", False)]:
         truth.append(("virtual", name, virt, None))
@@ -346,6 +361,14 @@ def run(ck):
                         bad("parameters-differ", "%s: recorded parameters %s, declared %s" % (fobj.name, got, want))
                 # ---- scenarios -------------------------------------------------------------------------------------------------------------
                 for kind, name, sigs, comments in scen:
+                    if kind == "scoped-enum":
+                        t = d["type"].get(name)
+                        ck.search_case("scenario-" + kind)
+                        if t is None:
+                            bad("scenario-missing:" + name, "the published enum %s has no type entry" % name)
+                        elif ("scoped_enum" in t["flags"]) != sigs or "enum" not in t["flags"]:
+                            bad("enum-kind:" + name, "%s is %s; recorded flags %s" % (name, "a scoped enum" if sigs else "an unscoped enum", t["flags"]))
+                        continue
                     fn = d["function"].get(name)
                     ck.search_case("scenario-" + kind)
                     if fn is None and kind == "virtual":
@@ -353,7 +376,15 @@ def run(ck):
                     if fn is None:
                         bad("scenario-missing:" + name, "%s is published but has no function entry (%s)" % (name, " ".join(opts) or "default options"))
                         continue
-                    if kind == "virtual":
+                    if kind == "proto":
+                        if sigs not in [re.sub(r"^(inline |static |virtual )+", "", p0) for p0 in fn["prototypes"]]:
+                            bad("prototype:" + name.split()[-1], "%s is declared `%s`; recorded prototypes %s" % (name, sigs, fn["prototypes"]))
+                    elif kind == "return":
+                        for w in fn["wrappers"]:
+                            got_ret = w["props"].get("return_type") if "has_return" in w["flags"] else "void"
+                            if got_ret != sigs:
+                                bad("return-type:" + name.split()[-1], "%s returns %s; recorded return type %s" % (name, sigs, got_ret))
+                    elif kind == "virtual":
                         if fn is not None and ("virtual" in fn["flags"]) != sigs:
                             bad("virtual-flag", "%s is %s; recorded flags %s" % (name, "virtual: it overrides a virtual function of a (non-public or indirect) base class" if sigs
                                                                                else "not virtual", fn["flags"]))
